@@ -35,12 +35,47 @@ struct TypeOps { std::function<void*(const void*)> clone; std::function<bool(con
 // The generic table: entry points whose C++ counterpart is a member with the same name on every simple domain.
 // The C++ operation runs on clones made before the call, so a wrapper that calls another method, swaps its
 // arguments, drops one, or maps the Boolean answer wrongly disagrees; a C++ exception must be a negative return.
+// documented mapping of the standard exception classes to error codes (most derived first, as CATCH_ALL must do)
+inline int code_of_exception(const std::exception& e) {
+  if (dynamic_cast<const std::bad_alloc*>(&e)) return PPL_ERROR_OUT_OF_MEMORY;
+  if (dynamic_cast<const std::invalid_argument*>(&e)) return PPL_ERROR_INVALID_ARGUMENT;
+  if (dynamic_cast<const std::domain_error*>(&e)) return PPL_ERROR_DOMAIN_ERROR;
+  if (dynamic_cast<const std::length_error*>(&e)) return PPL_ERROR_LENGTH_ERROR;
+  if (dynamic_cast<const std::logic_error*>(&e)) return PPL_ERROR_LOGIC_ERROR;
+  if (dynamic_cast<const std::overflow_error*>(&e)) return PPL_ARITHMETIC_OVERFLOW;
+  if (dynamic_cast<const std::runtime_error*>(&e)) return PPL_ERROR_INTERNAL_ERROR;
+  return 0;
+}
+// MIP_Problem: the solving queries on a clone taken before the call
+inline int faith_mip(const FaithArgs& a, std::string& why) {
+  const PPL::MIP_Problem& xb = *static_cast<const PPL::MIP_Problem*>(a.x_before);
+  PPL::MIP_Problem c(xb);
+  int want = 0; bool is_bool = false, is_status = false; int expect_code = 0; bool threw = false;
+  try {
+    if (a.op == "is_satisfiable") { want = c.is_satisfiable(); is_bool = true; }
+    else if (a.op == "solve") { PPL::MIP_Problem_Status st = c.solve(); want = st == PPL::UNFEASIBLE_MIP_PROBLEM ? PPL_MIP_PROBLEM_STATUS_UNFEASIBLE : st == PPL::UNBOUNDED_MIP_PROBLEM ? PPL_MIP_PROBLEM_STATUS_UNBOUNDED : PPL_MIP_PROBLEM_STATUS_OPTIMIZED; is_status = true; }
+    else if (a.op == "feasible_point") (void) c.feasible_point();
+    else if (a.op == "optimizing_point") (void) c.optimizing_point();
+    else if (a.op == "OK") { want = c.OK(); is_bool = true; }
+    else return 0;
+  }
+  catch (const std::exception& e) { threw = true; expect_code = code_of_exception(e); }
+  if (threw) {
+    if (a.r >= 0) { why = "the C++ operation throws on the same problem but the C call reported success"; return -1; }
+    if (expect_code != 0 && a.r != expect_code) { why = "the C++ operation throws an exception documented as error code " + std::to_string(expect_code) + ", the C call returned " + std::to_string(a.r); return -1; }
+    return 1;
+  }
+  if (a.r < 0) { why = "the C++ operation succeeds on the same problem but the C call failed with " + std::to_string(a.r); return -1; }
+  if (is_bool && (a.r > 0) != (want != 0)) { why = std::string("C++ answers ") + (want ? "true" : "false") + ", the C call returned " + std::to_string(a.r); return -1; }
+  if (is_status && a.r != want) { why = "C++ status code " + std::to_string(want) + ", the C call returned " + std::to_string(a.r); return -1; }
+  return 1;
+}
 template <class T, class EQ> int faith_domain(const FaithArgs& a, std::string& why, EQ same) {
   const T& xb = *static_cast<const T*>(a.x_before);
   const T* yb = static_cast<const T*>(a.y_before);
   const T& xa = *static_cast<const T*>(a.x_after);
   const std::string& op = a.op;
-  int expect_bool = -1; bool mut = false; bool threw = false;
+  int expect_bool = -1; bool mut = false; bool threw = false; int expect_code = 0;
   T c(xb);
   try {
     if (op == "is_empty") expect_bool = xb.is_empty();
@@ -69,8 +104,11 @@ template <class T, class EQ> int faith_domain(const FaithArgs& a, std::string& w
     else if (op == "concatenate_assign" && yb) { c.concatenate_assign(*yb); mut = true; }
     else return 0;
   }
-  catch (const std::exception&) { threw = true; }
-  if (threw) { if (a.r >= 0) { why = "the C++ operation throws on the same arguments but the C call reported success (" + std::to_string(a.r) + ")"; return -1; } return 1; }
+  catch (const std::exception& e) { threw = true; expect_code = code_of_exception(e); }
+  if (threw) {
+    if (a.r >= 0) { why = "the C++ operation throws on the same arguments but the C call reported success (" + std::to_string(a.r) + ")"; return -1; }
+    if (expect_code != 0 && a.r != expect_code) { why = "the C++ operation throws an exception documented as error code " + std::to_string(expect_code) + ", the C call returned " + std::to_string(a.r); return -1; }
+    return 1; }
   if (a.r < 0) { why = "the C++ operation succeeds on the same arguments but the C call failed with " + std::to_string(a.r); return -1; }
   if (expect_bool >= 0 && (a.r > 0) != (expect_bool != 0)) { why = std::string("C++ answers ") + (expect_bool ? "true" : "false") + ", the C call returned " + std::to_string(a.r); return -1; }
   if (mut && !same(&c, &xa)) { why = "the receiver after the C call differs from the result of the C++ operation on a clone taken before the call"; return -1; }
@@ -131,6 +169,14 @@ std::map<std::string, TypeOps> make_type_ops() {
   m["Congruence_System"] = ops_dump<PPL::Congruence_System>();
   m["Grid_Generator_System"] = ops_dump<PPL::Grid_Generator_System>();
   m["Polyhedron"] = ops_polyhedron();
+  { TypeOps t = { [](const void* p) { return (void*) new PPL::MIP_Problem(*static_cast<const PPL::MIP_Problem*>(p)); },
+                  [](const void* a, const void* b) {      // the PROBLEM (not the solver state, which const queries update lazily)
+                    auto text = [](const PPL::MIP_Problem& m) { std::ostringstream o; o << m.space_dimension() << "|" << (int) m.optimization_mode() << "|";
+                      m.objective_function().ascii_dump(o); for (PPL::MIP_Problem::const_iterator i = m.constraints_begin(); i != m.constraints_end(); ++i) i->ascii_dump(o);
+                      const PPL::Variables_Set& iv = m.integer_space_dimensions(); for (PPL::Variables_Set::const_iterator i = iv.begin(); i != iv.end(); ++i) o << " i" << *i; return o.str(); };
+                    return text(*static_cast<const PPL::MIP_Problem*>(a)) == text(*static_cast<const PPL::MIP_Problem*>(b)); },
+                  [](void* p) { delete static_cast<PPL::MIP_Problem*>(p); }, faith_mip, nullptr };
+    m["MIP_Problem"] = t; }
   m["Grid"] = ops_domain<PPL::Grid>();
   m["Rational_Box"] = ops_domain<PPL::Rational_Box>();
   m["BD_Shape_mpz_class"] = ops_domain<PPL::BD_Shape<mpz_class> >();
@@ -540,6 +586,20 @@ struct CapiHarness : Harness {
           if (det) sr = ppl_set_deterministic_timeout((unsigned long) (1 + op.fk % 50), 0);
           else { g_clock.active = true; g_step_us = 3000 + 2000 * (op.fk % 3); sr = ppl_set_timeout((unsigned) (1 + op.fk % 3)); }
           if (sr < 0) { ctx.stat("capi.timeout.set_failed"); return; }
+          // variant: the first timeout expires while the client is idle (no computation polls), then a LONG timeout is set
+          // without a reset in between: the stale expiry must not make the next call time out
+          if (!det && op.fk % 4 == 3) {
+            g_clock.advance(200000);                      // 0.2 s of simulated CPU time spent outside the library
+            int sr2 = ppl_set_timeout(100000);             // 1000 s
+            if (sr2 < 0) { ctx.stat("capi.timeout.set_failed"); return; }
+            long d0 = g_clock.deliveries;
+            Judged j0 = do_call(C, t, op);
+            ctx.stat("capi.timeout.idle_expiry_then_long_timeout");
+            if (j0.r == PPL_TIMEOUT_EXCEPTION && g_clock.deliveries == d0) ctx.violation("C20", "timeout-without-expiry", "C|" + op.kind + "|timeout|stale", "PPL_TIMEOUT_EXCEPTION under a timeout of 1000 s that has not expired (an earlier timeout expired while idle and was replaced by ppl_set_timeout)");
+            ppl_reset_timeout(); g_clock.active = false; g_step_us = 0;
+            delete_all(C, ctx, "after-timeout");
+            return;
+          }
           long deliveries0 = g_clock.deliveries;
           Judged j = do_call(C, t, op);
           bool fired = det ? (PPL::abandon_expensive_computations != nullptr || j.r == PPL_TIMEOUT_EXCEPTION) : (g_clock.deliveries > deliveries0);
